@@ -30,13 +30,17 @@ def impl_main(mode, fin, fout):
             with warnings.catch_warnings():
                 warnings.simplefilter("ignore")
                 p.parse()
-            res = []
-            for m in p.list_decay_mother_names():
-                for dm in p._find_decay_modes(m):
+        except Exception as e:
+            out.append({"err": "rejected", "type": type(e).__name__})
+            continue
+        res = []
+        for m in p.list_decay_mother_names():
+            for dm in p._find_decay_modes(m):
+                try:
                     d = p._decay_mode_details(dm, True)
                     res.append([d["model"], list(d["fs"]), [str(x) for x in d["model_params"]] if isinstance(d["model_params"], list) else []])
-        except Exception as e:
-            res = {"err": "rejected", "type": type(e).__name__}
+                except Exception as e:      # parse() accepted the file, the mode cannot be read: reported as accepted-with-junk
+                    res.append(["<unreadable:" + type(e).__name__ + ">", [], []])
         out.append(res)
     Path(fout).write_text(json.dumps(out))
 
